@@ -417,6 +417,26 @@ pub fn run_c12(ctx: &Ctx, rep: &mut Report) {
                 }
             }
         }
+        // bursts: three consecutive underlying calls fail with a transient kind
+        for k in 0..n {
+            if !ctx.time_left() && ctx.only_case.is_none() {
+                complete = false;
+                break;
+            }
+            let kind = if k % 2 == 0 { ErrorKind::TimedOut } else { ErrorKind::WouldBlock };
+            let plan: Vec<Fault> = (0..3).map(|d| Fault { kinds: K_READ | K_SEEK, k: k + d, err: kind, sticky: false, partial: false }).collect();
+            crate::guard::case_begin(case);
+            let r = guard::catch(|| r_run(&wl, plan, rep, Some(&reference.0)));
+            rep.evaluations += 1;
+            rep.count("runs.burst_of_three");
+            let fw = || witness(vec![("fault_position", J::Int(k as i128)), ("error_kind", J::s(format!("{kind:?}"))), ("burst", J::Int(3))]);
+            match r {
+                Ok(Ok(_)) => {}
+                Ok(Err((sig, d))) => rep.finding(sig, format!("three consecutive {kind:?} faults from underlying call #{k}: {d}"), fw()),
+                Err(p) => rep.finding(p.signature(), format!("burst at underlying call #{k}: panic at {}:{}: {}", p.file, p.line, p.message), fw()),
+            }
+            rep.nontrivial(fnv64_add(fnv64_add(crate::rng::fnv64(&w.to_le_bytes()), &k.to_le_bytes()), b"burst3"));
+        }
         // pairs: exhaustive when small, else sampled
         let pair_budget: u64 = if ctx.quick() { 1500 } else { 20000 };
         let all_pairs = n * (n - 1) / 2;
@@ -478,6 +498,9 @@ enum WStep {
     OpenNew { slot: usize, path: String },
     OpenExisting { slot: usize, path: String },
     Write { slot: usize, len: usize },
+    /// write_vectored with two slices; the first ends at the next multiple of 1024 (the
+    /// buffer size used here), the second has `len` bytes
+    WriteVectored { slot: usize, len: usize },
     Seek { slot: usize, to: u64 },
     ReadSome { slot: usize, n: usize },
     SetLen { slot: usize, n: u64 },
@@ -572,6 +595,7 @@ fn build_write_script(rng: &mut Rng, w: u64) -> Vec<WStep> {
             _ => {}
         }
     }
+    s.push(WStep::WriteVectored { slot: 0, len: 300 });
     s.push(WStep::FlushHandle { slot: 0 });
     s.push(WStep::SetLen { slot: 1, n: *rng.pick(&[100u64, 4096, 6000]) });
     s.push(WStep::Write { slot: 1, len: 200 });
@@ -606,6 +630,12 @@ struct WState {
     api: u32,
     writes: u64,
     structure_tainted: bool,
+    /// some API call failed and never succeeded when retried
+    unrecovered: bool,
+    /// the fault plan tears a write (grants a strict prefix, then fails)
+    torn: bool,
+    /// state bits last set successfully through the API, per path
+    state_set: Vec<(String, u32)>,
 }
 
 fn w_step_name(s: &WStep) -> &'static str {
@@ -614,6 +644,7 @@ fn w_step_name(s: &WStep) -> &'static str {
         WStep::OpenNew { .. } => "create_stream",
         WStep::OpenExisting { .. } => "open_stream",
         WStep::Write { .. } => "write",
+        WStep::WriteVectored { .. } => "write_vectored",
         WStep::Seek { .. } => "seek",
         WStep::ReadSome { .. } => "read",
         WStep::SetLen { .. } => "set_len",
@@ -679,6 +710,31 @@ fn w_exec(st: &mut WState, step: &WStep, rep: &mut Report) -> Result<Result<(), 
                         h.pos = end as u64;
                         Ok(())
                     }
+                    Err(e) => Err(e),
+                }
+            }
+        },
+        WStep::WriteVectored { slot, len } => match st.handles.get_mut(*slot).and_then(|h| h.as_mut()) {
+            None => Ok(()),
+            Some(h) => {
+                st.writes += 1;
+                let first = 1024 - (h.pos as usize % 1024);
+                let data = payload(st.writes, first + *len);
+                let bufs = [std::io::IoSlice::new(&data[..first]), std::io::IoSlice::new(&data[first..])];
+                match h.stream.write_vectored(&bufs) {
+                    Ok(k) => {
+                        if k == 0 || k > data.len() {
+                            return Err(("write_vectored | wrong count".to_string(), format!("write_vectored({first} + {len}) returned {k}")));
+                        }
+                        let end = h.pos as usize + k;
+                        if h.content.len() < end {
+                            h.content.resize(end, 0);
+                        }
+                        h.content[h.pos as usize..end].copy_from_slice(&data[..k]);
+                        h.pos = end as u64;
+                        Ok(())
+                    }
+                    // "If an error is returned then no bytes in the buffer were written"
                     Err(e) => Err(e),
                 }
             }
@@ -764,6 +820,37 @@ fn w_exec(st: &mut WState, step: &WStep, rep: &mut Report) -> Result<Result<(), 
                             return Err((format!("flush Ok | underlying writer not flushed after the last write{}", if after_failed { " (previous flush attempt had failed)" } else { "" }), format!("{}: Stream::flush returned Ok but {pending} underlying write(s) happened since the last successful underlying flush", h.path)));
                         }
                         rep.count("ok_flush_underlying_flush_checked");
+                        // "Durable": once every call that failed has succeeded on retry, nothing that
+                        // was reported is still missing, so the stored bytes must open again - also
+                        // when the failure hit a structural call (create / remove / resize).  Not
+                        // demanded while a failed call is still unrecovered ("later calls may fail"),
+                        // nor when the store itself tore a write (short write, then failure).
+                        let stored = st.shared.bytes();
+                        let (f2, _s2) = MonFile::new(stored);
+                        let mut reopened = match CompoundFile::open(f2) {
+                            Ok(cf2) => Some(cf2),
+                            Err(e) => {
+                                if !st.unrecovered && !st.torn {
+                                    return Err((format!("flush Ok | the stored file no longer opens | {}", crate::guard::strip_numbers(&e.to_string())), format!("{}: every failed call had succeeded on retry and Stream::flush returned Ok, but the stored bytes are rejected by open: {e}", h.path)));
+                                }
+                                rep.count("reopen_unavailable");
+                                None
+                            }
+                        };
+                        if reopened.is_some() && !st.unrecovered && !st.torn {
+                            rep.count("ok_flush_stored_file_opens");
+                            // metadata calls that returned Ok are in the stored file as well
+                            if let Some(cf2) = reopened.as_ref() {
+                                for (p, v) in &st.state_set {
+                                    if let Ok(e) = cf2.entry(p) {
+                                        if e.state_bits() != *v {
+                                            return Err(("set_state_bits Ok | the stored file holds another value".to_string(), format!("{p}: set_state_bits({v:#x}) returned Ok (every failed call had succeeded on retry), the reopened file reports {:#x}", e.state_bits())));
+                                        }
+                                        rep.count("ok_metadata_reopen_checked");
+                                    }
+                                }
+                            }
+                        }
                         // a successful flush means durable: a fresh handle reads back every
                         // accepted byte - also when the previous flush attempt had failed
                         if !h.tainted && !st.structure_tainted {
@@ -784,22 +871,17 @@ fn w_exec(st: &mut WState, step: &WStep, rep: &mut Report) -> Result<Result<(), 
                                         rep.count("ok_flush_after_failed_flush_readbacks");
                                     }
                                     // "is in the compound file": the raw bytes, reopened, hold them too
-                                    let bytes = st.shared.bytes();
-                                    let (f2, _s2) = MonFile::new(bytes);
-                                    match CompoundFile::open(f2) {
-                                        Ok(mut cf2) => {
-                                            let mut got2 = Vec::new();
-                                            match cf2.open_stream(&path).and_then(|mut f| f.read_to_end(&mut got2)) {
-                                                Ok(_) if got2 == want => rep.count("ok_flush_reopen_readbacks"),
-                                                Ok(_) => {
-                                                    return Err(("flush Ok | accepted bytes are not in the reopened file".to_string(), format!("{path}: {}", if got2.len() == want.len() { engine::describe_bytes_diff(&want, &got2) } else { format!("{} bytes accepted, reopened file holds {}", want.len(), got2.len()) })));
-                                                }
-                                                Err(e) => {
-                                                    return Err(("flush Ok | accepted bytes cannot be read from the reopened file".to_string(), format!("{path}: {e} (the live object reads them fine)")));
-                                                }
+                                    if let Some(cf2) = reopened.as_mut() {
+                                        let mut got2 = Vec::new();
+                                        match cf2.open_stream(&path).and_then(|mut f| f.read_to_end(&mut got2)) {
+                                            Ok(_) if got2 == want => rep.count("ok_flush_reopen_readbacks"),
+                                            Ok(_) => {
+                                                return Err(("flush Ok | accepted bytes are not in the reopened file".to_string(), format!("{path}: {}", if got2.len() == want.len() { engine::describe_bytes_diff(&want, &got2) } else { format!("{} bytes accepted, reopened file holds {}", want.len(), got2.len()) })));
+                                            }
+                                            Err(e) => {
+                                                return Err(("flush Ok | accepted bytes cannot be read from the reopened file".to_string(), format!("{path}: {e} (the live object reads them fine)")));
                                             }
                                         }
-                                        Err(_) => rep.count("reopen_unavailable"),
                                     }
                                 }
                                 Err(_) => rep.count("readback_unavailable"),
@@ -833,7 +915,14 @@ fn w_exec(st: &mut WState, step: &WStep, rep: &mut Report) -> Result<Result<(), 
             }
             r
         }
-        WStep::SetState(p, v) => st.cf.set_state_bits(p, *v),
+        WStep::SetState(p, v) => {
+            let r = st.cf.set_state_bits(p, *v);
+            if r.is_ok() {
+                st.state_set.retain(|x| &x.0 != p);
+                st.state_set.push((p.clone(), *v));
+            }
+            r
+        }
         WStep::FlushFile => st.cf.flush(),
         WStep::Marker => Ok(()),
     };
@@ -909,6 +998,16 @@ pub fn run_c13(ctx: &Ctx, rep: &mut Report) {
                     break;
                 }
                 let full = label == "full";
+                if let Some(only) = std::env::var_os("CFBMON_ONLY_POS") {
+                    let only = only.to_string_lossy().to_string();
+                    let want_k: u64 = only.split(':').nth(1).and_then(|x| x.parse().ok()).unwrap_or(0);
+                    if !only.starts_with(label) || k > want_k {
+                        break;
+                    }
+                    if k < want_k {
+                        k = want_k;
+                    }
+                }
                 let partial = mask == K_WRITE && k % 3 == 1 && !full;
                 let kind = if full {
                     ErrorKind::WriteZero
@@ -974,6 +1073,7 @@ fn w_run_observed(script: &[WStep], version: Version, faults: Vec<Fault>, rep: &
     }
     .map_err(|e| ("create | failed without faults".to_string(), format!("{e}")))?;
     let base = shared.seq();
+    let torn = faults.iter().any(|f| f.partial);
     shared.arm(faults);
     // bounded progress in logical steps: with three attempts per step plus the harness's
     // own readbacks a run needs a small multiple of the fault-free call count; at fifty
@@ -981,7 +1081,7 @@ fn w_run_observed(script: &[WStep], version: Version, faults: Vec<Fault>, rep: &
     if let Some(n) = fault_free_calls {
         shared.set_step_budget(50 * n + 20_000);
     }
-    let mut st = WState { shared: shared.clone(), cf, handles: Vec::new(), api: 0, writes: 0, structure_tainted: false };
+    let mut st = WState { shared: shared.clone(), cf, handles: Vec::new(), api: 0, writes: 0, structure_tainted: false, unrecovered: false, torn, state_set: Vec::new() };
     let kind_counts = |sh: &Shared| {
         let g = sh.lock();
         [g.c.writes, g.c.seeks, g.c.flushes]
@@ -1012,6 +1112,7 @@ fn w_run_observed(script: &[WStep], version: Version, faults: Vec<Fault>, rep: &
                 Err(_) => {
                     rep.count(&format!("api_errors.{}", w_step_name(step)));
                     if attempts >= 3 {
+                        st.unrecovered = true;
                         break;
                     }
                 }
